@@ -36,12 +36,33 @@ def snapshot(obj):
         return None
 
 
+def gen_lookahead_spec(rng):
+    """A pattern the general generator reaches too rarely: one logged, cached environment that is longer than what an off-policy
+    evaluator reads ahead (RejectionCB: 100), a learner that reports through learning_info judged by that evaluator, and other
+    triples on the same environment judged by an evaluator that copies the interactions' extra fields into its rows."""
+    n = weighted(rng, [(110, 1), (130, 2), (160, 2)])
+    env = {"src": ["tagged", {"tag": "T0", "n": n, "n_actions": 2 + rng.randrange(2), "extra": False, "ctx_list": False}],
+           "ops": [["logged", {"learner": ["random", {"seed": 2}], "seed": 1.23}], weighted(rng, [(["chunk", {"cache": True}], 2), (["cache", {}], 1)])]}
+    learners = [["info", {"tag": "i0", "every": 1 + rng.randrange(3), "raise_at": None}], ["random", {"seed": 1 + rng.randrange(5)}]]
+    if rng.random() < 0.5:
+        learners.append(X.gen_learner(rng, 2))
+    rng.shuffle(learners)
+    evaluators = [["rejection", {"seed": weighted(rng, [(None, 1), (3, 1)])}], ["seqcb", {"learn": "off", "eval": "ips", "seed": None}]]
+    info_idx = next(i for i, l in enumerate(learners) if l[0] == "info")
+    tuples = [[0, info_idx, 0]] + [[0, i, 1] for i in range(len(learners)) if i != info_idx]
+    rng.shuffle(tuples)
+    return {"envs": [env], "learners": learners, "evaluators": evaluators, "seed": weighted(rng, [(1, 2), (rng.randrange(2, 50), 1)]),
+            "quiet": True, "description": None, "flavour": "sim", "shape": "tuples", "tuples": tuples}
+
+
 def gen_fault_spec(rng):
     """Experiment with sharing patterns and (for odd indices) injected component failures."""
+    if rng.random() < 0.04:
+        return gen_lookahead_spec(rng)
     n_env = 1 + rng.randrange(3)
     groups = []
     for i in range(n_env):
-        n = weighted(rng, [(4, 1), (12, 2), (26, 2), (30, 2), (45, 2), (60, 1)])
+        n = weighted(rng, [(4, 1), (12, 2), (26, 2), (30, 2), (45, 2), (60, 1), (130, 0.5), (160, 0.5)])      # (RejectionCB looks 100 interactions ahead)
         g = {"src": ["tagged", {"tag": f"T{i}", "n": n, "n_actions": 2 + rng.randrange(2), "extra": rng.random() < 0.2,
                                "ctx_list": rng.random() < 0.4}], "ops": []}
         r = rng.random()
